@@ -222,6 +222,12 @@ func judge(run *vk.Run, t *trial, ctx string) {
 			band = "race"
 		}
 	}
+	if run.DistinctCount()%8 == 0 {
+		wit["outcome"] = class
+		wit["callback_invocations"] = calls
+		wit["band"] = band
+		run.Sample(wit)
+	}
 	run.Distinct(fmt.Sprintf("%s/%s/T=%v/band=%s/att=%d/mode=%d/%s", ctx, t.dir, t.timeout, band, t.natt, t.mode, class))
 	run.Count("outcome_"+class, 1)
 	if band == "race" {
@@ -574,7 +580,6 @@ func main() {
 			run.Merge("race:", s)
 		}
 	}
-	run.Sample(map[string]any{"example_trial": "uid=17 dir=c2s T=100ms delay=99.75ms attachments=2 responder_mode=3", "oracle": "calls<=1; with timeout calls==1; reply token = 7*uid+3 or ErrAckTimeout with zero values"})
 	run.Finish()
 }
 
